@@ -15,6 +15,7 @@ INVARIANT DivLaw
 INVARIANT Commute
 INVARIANT SubIsAddNeg
 INVARIANT NegLaw
+INVARIANT NegNegLaw
 INVARIANT UintNegIsError
 INVARIANT NativeAgrees
 CHECK_DEADLOCK FALSE
@@ -66,6 +67,10 @@ def observe(ty, op, a, b):
         out["direct"] = direct(lambda: -C(a))
         text = "-(%s)" % celx.lit({"t": ty, "v": a})
         vtext = "-x"
+    elif op == "negneg":
+        out["direct"] = direct(lambda: -(-C(a)))
+        text = "- -(%s)" % celx.lit({"t": ty, "v": a})
+        vtext = "- -x"
     else:
         f = PYOPS[op]
         out["direct"] = direct(lambda: f(C(a), C(b)))
@@ -73,7 +78,15 @@ def observe(ty, op, a, b):
         text = "%s %s %s" % (celx.lit({"t": ty, "v": a}), op, celx.lit({"t": ty, "v": b}))
         vtext = "x %s y" % op
     finite = ty != "double" or all(v is None or math.isfinite(v) for v in (a, b))
+    htext = None
+    if ty in ("int", "uint") and op not in ("neg", "negneg"):
+        # the same operands spelled in hexadecimal
+        def hx(v):
+            return ("-" if v < 0 else "") + "0x%X" % abs(v) + ("u" if ty == "uint" else "")
+        htext = "%s %s %s" % (hx(a), op, hx(b))
     for r in ("I", "C"):
+        if htext is not None:
+            out["hex" + r] = celx.outcome_abs(celx.run(htext, {}, r))
         if finite:      # non-finite doubles have no literal spelling: bound variables only
             out["expr" + r] = celx.outcome_abs(celx.run(text, {}, r))
         out["vars" + r] = celx.outcome_abs(celx.run(vtext, {"x": C(a), "y": C(b) if b is not None else None}, r))
@@ -93,10 +106,10 @@ def agrees(ty, exp, got):
 def sig_of(ty, op, a, b, path, exp, got):
     if ty == "double":
         oc = "a=%s b=%s" % (dclass({"t": "double", "v": a}), dclass({"t": "double", "v": b}) if b is not None else "-")
-        return "double %s %s exp=%s got=%s %s" % (op, oc, dclass(exp), dclass(got), "runner" if path[:4] in ("expr", "vars") else path)
+        return "double %s %s exp=%s got=%s %s" % (op, oc, dclass(exp), dclass(got), "runner" if path[:4] in ("expr", "vars") or path[:3] == "hex" else path)
     return "%s %s exp=%s got=%s %s" % (ty, op, "err" if exp["t"] == "err" else "val",
                                        got["t"] if got["t"] in ("err", "exc") else "val",
-                                       "runner" if path[:4] in ("expr", "vars") else path)
+                                       "runner" if path[:4] in ("expr", "vars") or path[:3] == "hex" else path)
 
 
 def _replay_case(case):
@@ -122,7 +135,7 @@ def state_case(st):
         e = st["exp"]
         exp = {"t": "err"} if e["t"] == "err" else {"t": ty, "v": unbig(e)}
     op = st["op"]
-    return (ty, op, a, None if op == "neg" else b, exp)
+    return (ty, op, a, None if op in ("neg", "negneg") else b, exp)
 
 
 def gen_random(rng: random.Random, n: int):
